@@ -36,6 +36,12 @@ def worker_init(prop='C13', tier='quick'):
     libops.quiet()
 
 
+def _proc_digest():
+    doc = libops.process_state_canon()
+    doc.pop('data_dir_cached')
+    return core.digest(doc)
+
+
 # ------------------------------------------------------------ observation
 
 def is_plain(x):
@@ -204,6 +210,7 @@ class Machine(object):
         self.probes = {}
         self.stats = {'ops': 0, 'loads': 0, 'merges': 0}
         self.last_merge = None
+        self.proc0 = None
         self.dropped = {}
         self.version = 0
         self.data_version = 0
@@ -296,6 +303,17 @@ class Machine(object):
                 for name in sorted(self.libs):
                     if name != ev_target(op):
                         self.check_untouched(name, idx, op['op'])
+                # invariant: process-wide state (registries, units table,
+                # default arguments) is not changed by any operation,
+                # failed ones included
+                pd = _proc_digest()
+                if self.proc0 is None:
+                    self.proc0 = pd
+                elif pd != self.proc0:
+                    self.viol('state-altered', 'process-state',
+                              'process-state-changed|by=%s' % op['op'],
+                              {'now': libops.process_state_canon()}, idx)
+                    self.proc0 = pd
         finally:
             undo()
         return self
@@ -441,6 +459,24 @@ class Machine(object):
         self.rerender()
         self.probe('include_renested')
         return ['renest', child, newp]
+
+    def do_diamond(self, op, idx):
+        """The same file included a second time from another parent: its
+        data are merged twice (idempotence under loading)."""
+        child, newp = op['child'], op['second_parent']
+        files = self.aw['files']
+        if child not in files or newp not in files or child == newp or \
+                child == self.aw['root']:
+            return ['diamond-skip']
+        if newp in set(sg.file_order(self.aw, child)) or \
+                child in files[newp]['include']:
+            return ['diamond-skip']
+        if len(sg.file_order(self.aw, self.aw['root'])) > 40:
+            return ['diamond-skip']
+        files[newp]['include'].append(child)
+        self.rerender()
+        self.probe('file_included_twice')
+        return ['diamond', child, newp]
 
     def do_compare(self, op, idx):
         """Two loads of the same data (other order / nesting) agree."""
@@ -1059,6 +1095,12 @@ def gen_spec(run_seed, prop):
                 ops.append({'op': 'load', 'as': 'L%d' % nlib})
                 ops.append({'op': 'compare', 'a': 'L0', 'b': 'L%d' % nlib})
                 nlib += 1
+            elif r < 0.27:
+                ops.append({'op': 'diamond', 'child': rng.choice(files),
+                            'second_parent': rng.choice(files)})
+                ops.append({'op': 'load', 'as': 'L%d' % nlib})
+                ops.append({'op': 'compare', 'a': 'L0', 'b': 'L%d' % nlib})
+                nlib += 1
             elif r < 0.38:
                 ops.append({'op': 'renest', 'child': rng.choice(files),
                             'new_parent': rng.choice(files),
@@ -1238,9 +1280,9 @@ def _big_magnitudes(rng, aw):
 
 
 def plan(tier, verif_seed, prop):
-    n = {'quick': 400, 'thorough': 30000}[tier]
+    n = {'quick': 1000, 'thorough': 12000 if prop == 'C13' else 24000}[tier]
     n = int(os.environ.get('VERIF_STORE_RUNS', n))
-    chunk = 10 if tier == 'quick' else 100
+    chunk = 20 if tier == 'quick' else 100
     seeds = [core.H(verif_seed, prop, j) for j in range(n)]
     tasks = [{'id': '%s-w-%d' % (prop, j), 'prop': prop,
               'seeds': seeds[j:j + chunk]} for j in range(0, n, chunk)]
